@@ -31,7 +31,7 @@ def symval(sv):
             k = a[0]
             if k == "exp":
                 t *= math.exp(f(a[1]))
-            elif k == "ln":
+            elif k in ("ln", "lnp"):
                 t *= math.log(f(a[1]))
             elif k == "ln2pi":
                 t *= math.log(2 * math.pi)
